@@ -550,6 +550,9 @@ func (x *X) strAt(s, i *Term) *Term {
 }
 
 func (x *X) typeID(t types.Type) *Term {
+	if b, ok := t.(*types.Basic); ok && b.Kind() < types.UntypedBool {
+		t = types.Typ[b.Kind()] // byte is uint8, rune is int32: one dynamic type, one id
+	}
 	k := typeKey(t)
 	id, ok := x.typeIDs[k]
 	if !ok {
